@@ -220,6 +220,9 @@ def replay(ctx, data, prop):
             return not (bad and 'released' in bad[0]) and not early
         obs, done, rec, quiet = c07.run_schedule(rp, data['input']['choices'])
         return c07.monitor(obs, rec, quiet, True) is None
+    # (which tasks run - and so which releases are meaningful - depends on the tree: releases that name a task
+    #  holding nothing on THIS tree are dropped, as the assumption "a release names a task that holds resources" demands)
+    sc = schedlib.keep_valid_releases(rp, sc)
     s, out, tasks, crash = schedlib.run_script(rp, sc)
     v = schedlib.monitor(rp, sc, out, tasks, crash, [prop])
     for o in out: print(o['events'])
